@@ -317,4 +317,57 @@ example :
           (.cons (.brkVal (.lit (Val.int 7))) .nil))))) .nil))) {}).1 matches .ok (.num (.i 7)) := by
   decide
 
+/-- more fuel never changes a finished result: once `eval` returns anything but "out of fuel", it
+returns the same outcome and state for every larger fuel -/
+theorem fuel_monotone (F : FloatOps) (n : Nat) (e : Expr) (s : St)
+    (h : ∀ s', eval F n e s ≠ (.nofuel, s')) (k : Nat) : eval F (n + k) e s = eval F n e s := by
+  induction k with
+  | zero => rfl
+  | succ k ih =>
+    rcases (fuel_mono_succ F (n + k)).1 e s with ⟨s', hs⟩ | heq
+    · rw [ih] at hs; exact absurd hs (h s')
+    · rw [← ih]; exact heq.symm
+
+/-- a non-vacuity instance: 3 units of fuel finish `1 + 2`, and so does any larger amount -/
+example (k : Nat) : (eval stubFloatOps (3 + k) (.arith .add (.lit (Val.int 1)) (.lit (Val.int 2))) {}).1
+    matches .ok (.num (.i 3)) := by
+  have hok : (eval stubFloatOps 3 (.arith .add (.lit (Val.int 1)) (.lit (Val.int 2))) {}).1
+      matches .ok _ := by decide
+  rw [fuel_monotone stubFloatOps 3 _ {} (by intro s' h; rw [h] at hok; simp at hok) k]; decide
+
+/-- output that has been produced is never changed: the trace after evaluating `e` is the trace
+before it with something appended -/
+theorem out_append_only (F : FloatOps) (n : Nat) (e : Expr) (s : St) :
+    ∃ t, (eval F n e s).2.out = s.out ++ t := (out_extends F n).1 e s
+
+/-- `and`, trace form: `trace (a and b) = trace a ++ (if truthy vₐ then trace b else [])` -/
+theorem and_short_append (F : FloatOps) (n : Nat) (a b : Expr) (s s₁ : St) (va : Val)
+    (ha : eval F n a s = (.ok va, s₁)) :
+    ∃ ta tb, s₁.out = s.out ++ ta ∧ (eval F n b s₁).2.out = s₁.out ++ tb
+      ∧ (eval F (n + 1) (.and a b) s).2.out = s.out ++ ta ++ (if va.truthy then tb else []) := by
+  obtain ⟨ta, hta⟩ := out_append_only F n a s
+  obtain ⟨tb, htb⟩ := out_append_only F n b s₁
+  rw [ha] at hta
+  replace hta : s₁.out = s.out ++ ta := hta
+  refine ⟨ta, tb, hta, htb, ?_⟩
+  rw [and_short_trace F n a b s s₁ va ha]
+  split
+  · rw [htb, hta]
+  · simpa using hta
+
+/-- `or`, trace form: `trace (a or b) = trace a ++ (if truthy vₐ then [] else trace b)` -/
+theorem or_short_append (F : FloatOps) (n : Nat) (a b : Expr) (s s₁ : St) (va : Val)
+    (ha : eval F n a s = (.ok va, s₁)) :
+    ∃ ta tb, s₁.out = s.out ++ ta ∧ (eval F n b s₁).2.out = s₁.out ++ tb
+      ∧ (eval F (n + 1) (.or a b) s).2.out = s.out ++ ta ++ (if va.truthy then [] else tb) := by
+  obtain ⟨ta, hta⟩ := out_append_only F n a s
+  obtain ⟨tb, htb⟩ := out_append_only F n b s₁
+  rw [ha] at hta
+  replace hta : s₁.out = s.out ++ ta := hta
+  refine ⟨ta, tb, hta, htb, ?_⟩
+  rw [or_short_trace F n a b s s₁ va ha]
+  split
+  · simpa using hta
+  · rw [htb, hta]
+
 end KotoVerif.C01
